@@ -57,7 +57,7 @@ RULE = ("a case is one schedule: storage {FileStorage, RamStorage} x compound {o
         "operations before commit starts, then re-executed on a fresh copy with the k-th operation failing, for every k (at "
         "most 14, thorough 60, sampled); after each: a fresh ix.writer(timeout=0.05) must succeed, generation and content must "
         "be what they were, a later commit must advance the generation by exactly one and show old content + its own "
-        "document. MPWRITER RACE cases (one in 25, vf/workers/c04_mp.py in a subprocess with a 120 s guard): while an "
+        "document. MPWRITER RACE cases (one in 25, thorough one in 50, vf/workers/c04_mp.py in a subprocess with a 120 s guard): while an "
         "MpWriter(procs=2, merged or multisegment) holds the index with sub-writer processes running, a second ix.writer() from "
         "the same thread, another thread and another (forked) process must each raise LockError (after its timeout); after "
         "MpWriter.commit() / cancel() / a failing with-block the lock is free for a fresh writer and for another process, the "
@@ -138,11 +138,11 @@ FLOORS = {
                  "front.async.attempts": 9000, "front.buffered.attempts": 9000, "proc.histories": 200,
                  "proc.commits": 1300, "progress.fresh_writer_ok": 6000, "lines.schedules": 2000,
                  "lines.yields": 6000000,
-                 "fault.cases": 100, "fault.points": 3000, "fault.checks.lock_free": 3000, "fault.checks.later_commit": 3000,
-                 "finish.iofault.fault": 3000, "mp.completed": 100, "mp.lockerror.other_process": 50,
-                 "mp.lockerror.mpwriter_as_second": 15, "mp.progress.fresh_writer_ok": 100,
-                 "sticky.cases": 100, "sticky.schedules": 150, "sticky.commits": 2500,
-                 "sticky.commits_crossing_digit_boundary_with_older_toc_present": 150, "sticky.crossing.100": 15},
+                 "fault.cases": 50, "fault.points": 1500, "fault.checks.lock_free": 1500, "fault.checks.later_commit": 1500,
+                 "finish.iofault.fault": 700, "mp.completed": 25, "mp.lockerror.other_process": 12,
+                 "mp.lockerror.mpwriter_as_second": 3, "mp.progress.fresh_writer_ok": 25,
+                 "sticky.cases": 50, "sticky.schedules": 80, "sticky.commits": 1200,
+                 "sticky.commits_crossing_digit_boundary_with_older_toc_present": 100, "sticky.crossing.100": 40},
 }
 
 VOCAB = ["alfa", "bravo", "charlie", "delta", "echo", "foxtrot"]
@@ -1416,7 +1416,7 @@ def run_fault_case(ctx, idx, rng):
             # the plain failing with-block (user exception) of this very plan: judged like every fault point below
             pass
         ks = list(range(0, nbody + 1))
-        cap = ctx.pick(14, 60)
+        cap = ctx.pick(14, 30)
         if len(ks) > cap:
             ks = [0] + sorted(rng.sample(ks[1:], cap - 1))
         for k in ks:
@@ -1483,7 +1483,7 @@ def run_fault_case(ctx, idx, rng):
         if not failed:
             c0 = fault_run(ctx, plan, tap, root, "commit", 0, seedtag)
             nc = c0["nevents"]
-            for k in sorted(rng.sample(range(1, nc + 1), min(nc, ctx.pick(4, 12)))) if nc else []:
+            for k in sorted(rng.sample(range(1, nc + 1), min(nc, ctx.pick(4, 6)))) if nc else []:
                 r = fault_run(ctx, plan, tap, root, "commit", k, seedtag)
                 ctx.count("obs.commit_fault.points")
                 ctx.count("obs.commit_fault.out." + r["out"].split(":")[0])
@@ -1675,8 +1675,9 @@ def run_sticky_case(ctx, idx, rng):
 def run_mp_case(ctx, idx, rng):
     from vf.core import ROOT, repo_root
     k = idx // ctx.nshards
-    mode = ["commit", "cancel", "mp-second", "with-exception"][(k // 25) % 4]
-    multiseg = bool(((k // 25) // 4 + idx % ctx.nshards) % 2)
+    per = ctx.pick(25, 50)
+    mode = ["commit", "cancel", "mp-second", "with-exception"][(k // per) % 4]
+    multiseg = bool(((k // per) // 4 + idx % ctx.nshards) % 2)
     root = tempfile.mkdtemp(prefix="vf-c04m-")
     wb = {"case": idx, "kind": "mpwriter-race", "mode": mode, "multisegment": multiseg}
     env = dict(os.environ)
@@ -1765,19 +1766,28 @@ def run(ctx):
         rng = ctx.rng(idx)
         ctx.reseed_global(idx)
         k = idx // ctx.nshards
+        t0 = time.time()
         if k % ctx.pick(25, 25) == 7:
+            kind = "fork"
             run_fork_case(ctx, idx, rng)
         elif k % 20 == 2:
+            kind = "fault"
             run_fault_case(ctx, idx, rng)
-        elif k % 25 == 13:
+        elif k % ctx.pick(25, 50) == 13:
+            kind = "mp"
             run_mp_case(ctx, idx, rng)
         elif k % 20 == 12:
+            kind = "sticky"
             run_sticky_case(ctx, idx, rng)
         elif k % ctx.pick(40, 30) == 3:
+            kind = "proc"
             run_proc_case(ctx, idx, rng)
         elif k % ctx.pick(4, 3) == 1:
+            kind = "threads+lines"
             run_thread_case(ctx, idx, rng, lines=True)
         else:
+            kind = "threads"
             run_thread_case(ctx, idx, rng)
+        ctx.count("wall_ms." + kind, int((time.time() - t0) * 1000))      # (evidence only: where the budget went)
     ctx.extra.pop("_hashes", None)
     ctx.extra.pop("_inconclusive", None)
